@@ -361,7 +361,32 @@ pub fn yaml_values(case: &Value) -> Value {
             Err(_) => locs.push(json!({"v": l, "ok": false, "yaml": "", "rt": false, "back": {}})),
         }
     }
-    json!({"ev": "yamlval", "values": res, "locs": locs})
+    // register sets (live_in / live_out / u_def of the dump)
+    let mut sets = vec![];
+    for st in case["sets"].as_array().cloned().unwrap_or_default() {
+        let regs: Vec<Register> = st
+            .as_array()
+            .cloned()
+            .unwrap_or_default()
+            .iter()
+            .filter_map(|x| Register::from_num(x.as_i64().unwrap_or(0).clamp(0, 31) as u8).ok())
+            .collect();
+        let set: riscv_analysis::cfg::RegisterSet = regs.iter().copied().collect();
+        let r = std::panic::catch_unwind(std::panic::AssertUnwindSafe(|| {
+            let y = serde_yaml::to_string(&set).unwrap_or_default();
+            let back: Result<riscv_analysis::cfg::RegisterSet, _> = serde_yaml::from_str(&y);
+            match back {
+                Ok(b) => (y, b == set, regset(b)),
+                Err(_) => (y, false, json!([])),
+            }
+        }));
+        let v = json!({"t": "regset", "regs": st});
+        match r {
+            Ok((y, rt, b)) => sets.push(json!({"v": v, "ok": true, "yaml": y, "rt": rt, "back": json!({"t": "regset", "regs": b})})),
+            Err(_) => sets.push(json!({"v": v, "ok": false, "yaml": "", "rt": false, "back": {}})),
+        }
+    }
+    json!({"ev": "yamlval", "values": res, "locs": locs, "sets": sets})
 }
 
 
